@@ -59,7 +59,7 @@ class Job:
     run side by side); counters are added to ctx by the main thread."""
 
     def __init__(self, name, module, spec, consts, invariants=(), properties=(), deadlock=False,
-                 simulate=None, depth=None, wrong=None, counts=True, timeout=1800):
+                 simulate=None, depth=None, wrong=None, counts=True, timeout=1800, workers=None):
         self.__dict__.update(locals())
         self.res = None
         self.dir = None
@@ -71,7 +71,7 @@ class Job:
         write_cfg(self.dir / cfg, self.spec, self.consts, invariants=list(self.invariants),
                   properties=list(self.properties), deadlock=self.deadlock)
         label = self.name + ("(expected counterexample)" if self.wrong else "")
-        self.res = ctx.tlc(self.dir, self.module, cfg, workers=workers, simulate=self.simulate, depth=self.depth,
+        self.res = ctx.tlc(self.dir, self.module, cfg, workers=self.workers or workers, simulate=self.simulate, depth=self.depth,
                            expect_ok=not self.wrong, count=False, label=label, timeout=self.timeout)
         if self.wrong and self.res.violated not in self.wrong:
             raise CheckerError("%s: a deliberately wrong design must violate one of %s, TLC said violated=%s rc=%d\n%s"
@@ -161,16 +161,17 @@ def run(ctx):
         c = log_consts("LevelsEdge", "ThrTree", B, [1], 5, 1, 1, 6)
     else:
         c = log_consts("LevelsMC", "ThrMC", B, [0, 2], 5, 1, 1, 6)
-    jobs.append(Job("log-mc", "HybridLogMC", "Spec", c, invariants=MC_INV, properties=MC_PROP, timeout=3600))
+    jobs.append(Job("log-mc", "HybridLogMC", "Spec", c, invariants=MC_INV, properties=MC_PROP, timeout=3600,
+                    workers=None if q else min(8, NCPU)))
     # G: mixed derive / log (all 7 levels) / WithGroup paths, all prefixes
     if q:
         c = log_consts("LevelsAll", "ThrWarn", [0, 2], [1, 6], 3, 2, 1, 4, emit_all=True)
     else:
-        c = log_consts("LevelsAll", "ThrMC", [0, 2], [0, 1, 6], 3, 2, 1, 4, emit_all=True)
+        c = log_consts("LevelsAll", "ThrMC", [0, 2], [1, 6], 3, 2, 1, 4, emit_all=True)
     jobs.append(Job("gen-mixed", "HybridLogGen", "GSpec", c, invariants=["Emit", "AttrsImmutable", "LinesCorrect"]))
     if not q:
         jobs.append(Job("conc-mc-4", "HybridConcMC", "Spec", conc_consts("G1111", 4), invariants=CONC_INV,
-                        properties=["Termination"], deadlock=True, timeout=3600))
+                        properties=["Termination"], deadlock=True, timeout=3600, workers=min(8, NCPU)))
         # S: 4 and 5 concurrent calls: random schedules (the exhaustive set has ~10^5 / ~10^7 members)
         for gates, np_, num in (("G1111", 4, 6000), ("G2101", 4, 2000), ("G11111", 5, 2000)):
             jobs.append(Job("conc-sim-" + gates, "HybridConcGen", "GSpec", conc_consts(gates, np_),
@@ -178,7 +179,7 @@ def run(ctx):
     # G: long random paths: deeper trees (capacity growth 4 -> 8 -> 16), many lines
     jobs.append(Job("gen-sim", "HybridLogGen", "GSpec",
                     log_consts("LevelsEdge", "ThrMC", B, [1, 6], 19, 19, 19, 18, emit_all=False),
-                    invariants=["Emit", "AttrsImmutable", "LinesCorrect"], simulate=120 if q else 1200, depth=19))
+                    invariants=["Emit", "AttrsImmutable", "LinesCorrect"], simulate=120 if q else 500, depth=19))
     # MC of the concurrent model, 3 calls, all interleavings
     jobs.append(Job("conc-mc-3", "HybridConcMC", "Spec", conc_consts("G111", 3), invariants=CONC_INV,
                     properties=["Termination"], deadlock=True))
